@@ -431,6 +431,12 @@ int main(int argc, char *argv[])
       else
     if (strcmp(argv[i], "-disasm_range") == 0)
     {
+       if (i + 1 >= argc)
+       {
+         printf("Error: -disasm_range needs a range\n");
+         exit(1);
+       }
+
        command = "disasm";
        command += ' ';
        command += argv[++i];
